@@ -1,3 +1,16 @@
 import PieModel.Props.C04
-open PieModel
-#print axioms C04_placeholder
+
+#print axioms PieModel.C04_queueAdd_mem
+#print axioms PieModel.C04_queueAdd_nodup
+#print axioms PieModel.C04_queuePop_spec
+#print axioms PieModel.C04_queuePop_sorted
+#print axioms PieModel.C04_queuePop_none_iff
+#print axioms PieModel.C04_pop_no_queued_dependency
+#print axioms PieModel.C04_pop_rank_strict_max
+#print axioms PieModel.C04_drain_order
+#print axioms PieModel.C04_swapRemove_perm
+#print axioms PieModel.C04_popLeastFrom_spec
+#print axioms PieModel.C04_popLeastFrom_none_iff
+#print axioms PieModel.C04_popLeastFrom_no_queued_dependency_in_cone
+#print axioms PieModel.C04_popLeastFrom_no_queued_dependency
+#print axioms PieModel.C04_popLeastFrom_in_cone
